@@ -188,6 +188,10 @@ def run_main(ctx):
         extra = made[4] if len(made) > 4 else {}
         w = C01.make_wfn(ctx, wk, norb, rng)
         w.normalize()
+        # evolution is linear: inputs of any norm (the result has the norm of the input)
+        if case % 3 == 1:
+            w.scale(rng.choice([2.5, complex(0.2, -0.1), 0.05]))
+            ctx.count("input-norm-not-one")
         dets = U.wfn_dets(w)
         if len(dets) > 64:
             continue
@@ -256,8 +260,9 @@ def run_main(ctx):
                 sig = "evolve:diagcoulomb:nonsymmetric-v"
             ctx.disagree(sig, f"distance to expm(-itH)psi = {err:.3e}", desc)
             continue
-        if abs(numpy.linalg.norm(got) - 1) > (1e-5 if api == "agu-cheb" else 1e-9):
-            ctx.disagree(f"evolve:norm:{route}", f"norm {numpy.linalg.norm(got)}", desc)
+        n_in = float(numpy.linalg.norm(psi))
+        if abs(numpy.linalg.norm(got) - n_in) > (1e-5 if api == "agu-cheb" else 1e-9) * max(1.0, n_in):
+            ctx.disagree(f"evolve:norm:{route}", f"norm {numpy.linalg.norm(got)}, norm of the input {n_in}", desc)
         # route / in-place refusal vs the decision model (Model/Evolve.lean)
         if api == "time_evolve":
             from fqe.hamiltonians import sparse_hamiltonian
